@@ -37,7 +37,7 @@ template <class T> struct FaultyAlloc {
     T* allocate(size_t n) {
         long k = ++LG.calls; auto it = LG.plan.find(k);
         if (LG.armed && it != LG.plan.end()) { LG.refused++; if (it->second == 0) throw std::bad_alloc(); if (it->second == 1) throw std::length_error("arena exhausted"); throw 42; }
-        size_t bytes = n * sizeof(T); char* p = (char*)malloc(bytes ? bytes : 1); if (!p) throw std::bad_alloc();
+        size_t bytes = n * sizeof(T); char* p = (char*)malloc(bytes ? bytes : 1); if (!p) { LG.refused++; throw std::bad_alloc(); }      // the machine itself is out of memory: a refusal like any other
         memset(p, 0xEE, bytes); LG.regions[p] = bytes; return (T*)p;
     }
     void deallocate(T* p, size_t) {
